@@ -18,7 +18,11 @@ Hostile == {"garbage", "bad_version", "bad_magic", "oversized", "datalen_short",
             "stream_abandon",
             \* a complete, valid message (the CONNECT, or a call) followed at once by a reset: the daemon still reads the message
             \* and only finds out when it answers
-            "valid_then_reset"}
+            "valid_then_reset",
+            \* a well-formed call with the bytes of a second call behind it in the same payload; a payload in which the argument
+            \* list, the keyword arguments or the whole payload (of a call, or of the connect message) is a serialized Proxy - an
+            \* object that contacts its own daemon as soon as it is iterated, indexed or asked for an attribute
+            "payload_trailing", "payload_proxy_shape"}
 Steps == [a : {"attack"}, who : {1, 2}, item : Hostile, pre : BOOLEAN]
          \cup [a : {"wcall", "aclose1", "aclose2", "fresh"}, who : {0}, item : {""}, pre : {FALSE}]
 VARIABLE h
